@@ -8,9 +8,8 @@ node whose edges are adjacent, `swapPositionsInAEL`), clipper_base.go / engine.g
 An edge of the sorted edge list is `(index in the AEL, x at the top of the scanbeam)`; a run of the merge
 sort is a `List` of them, the SEL is the list of runs (run bases are what the `jump` pointers link).  An
 intersect node is the pair of edge indices `(edge1, edge2)`; the nodes are returned in the order
-`addNewIntersectNode` appends them.  The node *points* are not modelled (float geometry of
-`addNewIntersectNode`): the probe passes the points the real code computed, and the model only sorts by
-them.  Tied to the code by `models-corr ixlist` (hook `VDoIntersections`).
+`addNewIntersectNode` appends them.  The node points (`nodePoint`: `getSegmentIntersectPt` from the generated
+code, `getClosestPtOnSegment`, `roundToEven`, `topX`) are executed with `Float`; no theorem mentions them.  Tied to the code by `models-corr ixlist` (hook `VDoIntersections`).
 -/
 namespace Model.Ix
 open Gen
@@ -28,6 +27,48 @@ def topX (bot top : Point64) (y : Int64) : Int64 :=
   if y == top.Y || top.X == bot.X then top.X
   else if y == bot.Y then bot.X
   else bot.X + (Float.round (getDx bot top * (Int64.toFloat y - Int64.toFloat bot.Y))).toInt64
+
+/-! ### The point of an intersect node (`addNewIntersectNode`), executed with `Float` -/
+
+/-- `roundToEven` (internal_clipper.go), written with `math.Modf` there -/
+def roundToEven (v : Float) : Float :=
+  if v.isNaN || v.isInf then v
+  else
+    let iv := if v < 0 then Float.ceil v else Float.floor v
+    let af := (v - iv).abs
+    if af < 0.5 then iv
+    else if af > 0.5 then (if v > 0 then iv + 1 else iv - 1)
+    else if iv.toInt64 % 2 == 0 then iv
+    else if v > 0 then iv + 1 else iv - 1
+
+/-- `getClosestPtOnSegment` -/
+def closestPtOnSegment (off s1 s2 : Point64) : Point64 :=
+  if s1.X == s2.X && s1.Y == s2.Y then s1
+  else
+    let dx := Int64.toFloat (s2.X - s1.X)
+    let dy := Int64.toFloat (s2.Y - s1.Y)
+    let q := ((Int64.toFloat (off.X - s1.X) * dx) + (Int64.toFloat (off.Y - s1.Y) * dy)) / ((dx * dx) + (dy * dy))
+    let q := if q < 0 then 0 else if q > 1 then 1 else q
+    ⟨s1.X + (roundToEven (q * dx)).toInt64, s1.Y + (roundToEven (q * dy)).toInt64⟩
+
+/-- the point `addNewIntersectNode(ae1, ae2, topY)` records: the rounded intersection of the two edges
+(`curX` of the first edge at `topY` when they are parallel), pulled back into the scanbeam
+`[topY, botY]` when it falls outside -/
+def nodePoint (e1 e2 : Point64 × Point64) (topY botY : Int64) : Point64 :=
+  let r := getSegmentIntersectPt e1.1 e1.2 e2.1 e2.2
+  let ip : Point64 := if !r.2 then ⟨topX e1.1 e1.2 topY, topY⟩ else r.1
+  if ip.Y > botY || ip.Y < topY then
+    let a1 := (getDx e1.1 e1.2).abs
+    let a2 := (getDx e2.1 e2.2).abs
+    if a1 > 100 then
+      if a2 > 100 then
+        if a1 > a2 then closestPtOnSegment ip e1.1 e1.2 else closestPtOnSegment ip e2.1 e2.2
+      else closestPtOnSegment ip e1.1 e1.2
+    else if a2 > 100 then closestPtOnSegment ip e2.1 e2.2
+    else
+      let y := if ip.Y < topY then topY else botY
+      ⟨if a1 < a2 then topX e1.1 e1.2 y else topX e2.1 e2.2 y, y⟩
+  else ip
 
 /-- The inner loop `for left != lEnd && right != rEnd` of `buildIntersectList`: two adjacent runs are
 merged; when the head of the right run is strictly left of the head of the left run it is moved in front
